@@ -58,6 +58,9 @@ def kept_rank(s, cutoff, mode, max_bond, margin):
     (descending). returns (k, ambiguous)"""
     d = len(s)
     amb = False
+    if isinstance(mode, (int, np.integer)):
+        # the numeric codes the low-level drivers take
+        mode = {1: "abs", 2: "rel", 3: "sum2", 4: "rsum2", 5: "sum1", 6: "rsum1"}.get(int(mode), "rsum2")
     if cutoff is None or cutoff <= 0:
         k = d
     else:
@@ -116,6 +119,8 @@ def install(rec):
         if x.ndim != 2:
             rec.count(entry, "reconstruct", "batch_not_judged")
             return None
+        if isinstance(mode, (int, np.integer)):
+            mode = {1: "abs", 2: "rel", 3: "sum2", 4: "rsum2", 5: "sum1", 6: "rsum1"}.get(int(mode), "rsum2")
         m, n = x.shape
         dt = x.dtype
         xd = x.astype(np.complex128 if np.iscomplexobj(x) else np.float64)
@@ -191,6 +196,12 @@ def install(rec):
         truncating = k_eff < d
         if method in ("svd:rand", "rsvd", "svds", "isvd", "eigsh"):
             tol = max(tol, 1e-8)
+        if method in ("svd:rand", "rsvd") and k_eff >= 1 and s0[min(k_eff, len(s0)) - 1] > 0:
+            # the sketch is sharpened by q power iterations without
+            # re-orthogonalisation: directions with small singular values are
+            # resolved to about eps * (s_1 / s_k) ** (2 q + 1) only
+            q = 2
+            tol = max(tol, 50 * eps * float(s0[0] / s0[min(k_eff, len(s0)) - 1]) ** (2 * q + 1))
 
         # ---- reconstruction / optimality
         xk_err = float(np.sqrt(np.sum(s0[k_eff:] ** 2)))  # Eckart-Young bound at rank k_eff
